@@ -193,6 +193,12 @@ func (t *Tunnels) Deactivate(mappingID string) error {
 	return t.Mappings.UpdatePortMappingStatus(mappingID, models.MappingStatusInactive)
 }
 
+// SetStatus stores an arbitrary status string (UpdatePortMappingStatus; the field is free-form:
+// models.MappingStatusError, or whatever an operator puts through the management API).
+func (t *Tunnels) SetStatus(mappingID, status string) error {
+	return t.Mappings.UpdatePortMappingStatus(mappingID, models.MappingStatus(status))
+}
+
 // Delete removes the mapping (DeletePortMapping).
 func (t *Tunnels) Delete(mappingID string) error { return t.Mappings.DeletePortMapping(mappingID) }
 
